@@ -226,3 +226,148 @@ CONFIG['C15'] = {
     'level_note': "Trusted: Lean kernel, harness/protocol, Lean Float = IEEE binary64. The f64 last-ulp in-bounds clause is by enumeration.",
     'technique': "Lean 4 theorems over the rational ideal (field arithmetic) + bit-exact Float mirror + differential correspondence",
 }
+
+RESIZE_TB = COMMON_TB + [
+    "the hand-written executable model Fir.Model.{Filters,Resample,Resizer} (Float mirror of the coefficient computation, translated clip "
+    "functions, control flow of resize_typed) is tied to the code by correspondence: every generated resize is answered by the model and "
+    "compared byte for byte (integers) / bit for bit (floats, portable back-end)",
+    "Lean Float / Float32 = hardware IEEE binary64 / binary32 and glibc sin/cos/exp as used by Rust (observed on every run by the bit-exact "
+    "coefficient comparison, not proved)",
+]
+RESIZE_ASSUME = [
+    "float tests in the control flow are opaque to the kernel: structural theorems hold for every value they can take (float-oblivious); "
+    "the values they do take are compared with the implementation on every generated case",
+    "SIMD kernels are compared with the same model (integers exactly); lane plumbing and load widths are not modelled",
+]
+
+def _resize_cfg(rule, level_text, partial, technique, extra_assume=()):
+    return {
+        'runs': [{'profile': 'verif-dbg'}],
+        'rule': rule,
+        'trusted_base': RESIZE_TB,
+        'assumptions': RESIZE_ASSUME + list(extra_assume),
+        'partial': partial,
+        'level_text': level_text,
+        'level_note': "Trusted: Lean kernel, rs2lean (clip functions, lists), harness/protocol, the hand-written executable model tied by "
+                      "correspondence; IEEE/libm conformance of Lean Float observed, not proved.",
+        'technique': technique,
+    }
+
+CONFIG['C12'] = _resize_cfg(
+    "all 13 pixel types x random algorithm (Nearest / Convolution / Interpolation / SuperSampling, 7 filters) x alpha on/off x back-ends x "
+    "typed / dynamic entry, source sizes 1..24, integer crop boxes whose size is the destination size (and the whole source): the "
+    "implementation's result is judged against an independent pixel-by-pixel copy oracle and against the model; cases where only one "
+    "dimension matches; SuperSampling(_, 1) with an integer aspect-preserving scale (intermediate = destination size) judged against the "
+    "Nearest result. distinct_nontrivial = distinct request lines.",
+    "Machine-checked proof (Lean 4) about the model of resize_typed: the copy fast path precedes the algorithm dispatch, so an "
+    "integer-aligned crop of the destination's size is copied bit-exactly for every algorithm, pixel type and alpha setting; when one "
+    "dimension matches no coefficients are computed for it and the remaining pass is column-local; a same-size super-sampling intermediate "
+    "is copied. Tied to the code by correspondence with an independent copy oracle.",
+    [], "Lean 4 theorems over the control-flow model (float-oblivious) + differential correspondence with copy oracle")
+
+CONFIG['C11'] = _resize_cfg(
+    "Nearest for all 13 pixel types, sizes 1..64 plus 1xN / Nx1 with N up to 3000 and up-scales to 200, crops: none, integer, fractional, "
+    "edge-flush, sub-pixel, and boxes within one ulp of the right / bottom edge (widths down to 2^-53 of the size); typed, dynamic and "
+    "cropped-view sources. Oracle: destination pixel (x, y) must be the source pixel at floor(left + (x+1/2)*cw/dw), floor(top + ...) "
+    "computed in exact rational arithmetic from the f64 bit patterns; within 2^-40 of an integer either neighbour inside the source is accepted.",
+    "Machine-checked proof (Lean 4) about the model of resample_nearest: every destination component is a bit-exact copy of a source "
+    "component whose column / row index is always inside the source, independent of pixel type and alpha setting; the equality of those "
+    "indices with the exact rational coordinate is checked on every generated case (float-noise clause).",
+    ["that the f64 index computation equals the exact floor is established per case by an exact rational oracle, not by theorem"],
+    "Lean 4 theorems over the nearest model + differential correspondence with an exact rational oracle")
+
+CONFIG['C05'] = _resize_cfg(
+    "every case is run twice with two sentinel fills (0xA5, 0x5A) of the whole destination buffer; destinations: exact buffer, longer "
+    "buffer with offset, mutable cropped view with margins, flush crop in an offset parent, nested crop; sources likewise; all 13 pixel "
+    "types, all algorithms incl. SuperSampling with multiplicities 1..8 on aspect-preserving and non-preserving down-scales, erroring and "
+    "zero-area crop boxes. Oracle: the set of buffer pixels that differ from the sentinel in either run must be exactly the destination "
+    "rectangle (or empty on error / zero size), written values must not depend on the sentinel, the source buffer must be unchanged.",
+    "Machine-checked proof (Lean 4): results reach memory only through the row index lists of the destination view - every pixel of the "
+    "rectangle is assigned, nothing outside changes (injectImg lemmas over the view model, any nesting); the logical result does not "
+    "depend on the previous destination content whenever a pass / Nearest / copy runs, and the destination is returned untouched on a "
+    "crop error or zero dimension. Tied to the code by the two-sentinel write-set oracle over all container kinds.",
+    ["alpha operations / colour mapping / component conversion write sets are covered by their own checks (C06, C16, C17) on exact buffers only",
+     "rayon thread counts for the write set are covered by C08's byte comparison"],
+    "Lean 4 theorems over view index lists and the control-flow model + two-sentinel write-set oracle")
+
+CONFIG['C13'] = _resize_cfg(
+    "each logical resize (13 pixel types, random geometry / crop / algorithm / alpha / back-end) is executed through a plain typed image and "
+    "through three further container combinations: typed images at an offset of a longer buffer, cropped views with margins, flush crops, "
+    "nested crops, Image / ImageRef / CroppedImage(Mut) through the dynamic entry point; parents are filled with poison values. Oracle "
+    "(harness): the logical destination pixels must be identical to those of the plain run; every run is also compared with the model.",
+    "Machine-checked proof (Lean 4): an operation of the model sees images only through extractImg / injectImg over the view's row index "
+    "lists; reading depends only on the exposed pixels, write-then-read through any well-formed view returns the logical image, hence equal "
+    "logical inputs give equal logical results for any two layouts. Tied to the real containers by running the same logical operation "
+    "through five placements and both entry points.",
+    ["that SIMD loads past a row end never influence a result lane is covered by poisoned parents in the correspondence, not proved"],
+    "Lean 4 theorems over view index lists + metamorphic correspondence across containers")
+
+CONFIG['C09'] = _resize_cfg(
+    "sequences of 2..12 operations on one Resizer: resizes mixing all 13 pixel types (pixel sizes 1..16), tiny and large sizes in both "
+    "orders, all algorithms, alpha on/off, crops, erroring calls, reset_internal_buffers and clone; every output is compared with the output "
+    "of a fresh Resizer for the same call (and with the model).",
+    "Machine-checked proof (Lean 4) on the Resizer state machine (grow-only scratch buffers with arbitrary content, reset, clone): the "
+    "outcome of every operation is independent of the state, so the k-th outcome of any history equals that of a fresh resizer; buffers "
+    "never shrink and an aligned slice always holds the requested pixels. That scratch content cannot leak rests on every temporary being "
+    "fully overwritten (C05 theorems); tied to the real buffers by op-sequence correspondence.",
+    ["the state machine abstracts buffer *content* as irrelevant by construction; that the real code never reads stale scratch content is "
+     "tied by correspondence (sequences vs fresh resizer), not derived from the Rust source"],
+    "Lean 4 theorems over a state-machine model (induction over histories) + op-sequence differential correspondence")
+
+CONFIG['C10'] = _resize_cfg(
+    "(a) uniform images: all 13 pixel types, every 8-bit value, extremes / mid / special values for wider types, sizes 1..48 plus extreme "
+    "down-scales (500..4000 : 1..5) and up-scales, crops, 7 filters, Convolution / Interpolation / SuperSampling, back-ends, alpha off or at "
+    "its maximum; oracle: every destination component equals the source value (f32: one ulp). (b) the implementation's coefficients "
+    "through the hook for every (in, out) pair up to 24 (thorough 128) x 7 filters and seeded geometries up to 8000:1: compared bit for "
+    "bit with the model's Float mirror, and QuantOK evaluated on the real i16 / i32 coefficients at the maximum component value.",
+    "Machine-checked proof (Lean 4) about passInt, the arithmetic of one destination component: if the window's integer coefficients "
+    "satisfy QuantOK the pass maps a constant row to exactly that constant (all 256 / 65,536 values, every window length and precision), "
+    "two passes compose; QuantOK holds whenever m*|sum - 2^p| < 2^(p-1). QuantOK itself is discharged by evaluation on the "
+    "implementation's real coefficients for every enumerated geometry (enumeration, said so), and holds unconditionally up to 8,222 taps.",
+    ["'all geometries' is by enumeration of QuantOK on real coefficients, not by theorem",
+     "beyond ~8,222 taps QuantOK can fail: known finding F17 (13678:1 Box, value 255 -> 254), negation proved (quantOK_fails_at_13678_taps)",
+     "I32 / F32: by the correspondence oracle (exact / one ulp), no theorem about f64 accumulation"],
+    "Lean 4 theorems over the fixed-point pass arithmetic (omega) + per-geometry discharge of QuantOK on real coefficients + uniform-image oracle")
+
+CONFIG['C18'] = _resize_cfg(
+    "non-negative filters (Box, Bilinear, Hamming, Gaussian), alpha off, all 13 pixel types, Convolution / Interpolation / SuperSampling, "
+    "back-ends, crops; value ranges anywhere in the component range incl. touching 0 / max and negative I32; each case is a pair of images "
+    "ordered component-wise; oracles: every destination component within [min, max] of its source channel, and got(A) <= got(B) (f32: one "
+    "ulp). Plus the implementation's coefficients through the hook: all quantised coefficients of the four filters must be >= 0.",
+    "Machine-checked proof (Lean 4) about passInt: with non-negative integer coefficients the exact dot product, the shift and the clip "
+    "are monotone, so the pass preserves order (8 and 16 bit), and with QuantOK at the two range ends the result stays inside the range "
+    "of its inputs; madd_epi16 pair products cannot overflow. Non-negativity of the real coefficients and QuantOK are discharged on the "
+    "implementation's own numbers; float formats by the oracle with one ulp.",
+    ["sign of the f64 Hamming / Gaussian kernel values is checked on the real coefficients, not proved (libm)",
+     "I32 / F32 order preservation: oracle only"],
+    "Lean 4 theorems over the fixed-point pass arithmetic + ordered-pair / range oracle + sign check of real coefficients")
+
+CONFIG['C07'] = _resize_cfg(
+    "six alpha pixel types, alpha handling on, Convolution / Interpolation / SuperSampling, 7 filters, back-ends, crops; sources with "
+    "transparent regions of random shape (single pixels, whole rows); each case is a pair that differs only in the colours stored under "
+    "alpha = 0 (oracle: identical results), destination pixels with alpha 0 must have colour 0; fully opaque sources are run with alpha "
+    "handling on and off (oracle: identical). The oracles apply to calls that reach a convolution (see assumptions).",
+    "Machine-checked proof (Lean 4): multiplying by alpha 0 gives 0 and dividing by alpha 0 gives colour 0 (translated code, both depths), so "
+    "two sources that differ only under alpha = 0 have the same premultiplied image and the alpha-aware convolution returns identical "
+    "results for every geometry / filter; multiply and divide never change alpha; for opaque pixels multiply and divide are the identity "
+    "(all 256 / 65,536 values). Tied by metamorphic pairs through the real resizer.",
+    ["opaque source = alpha-off result additionally needs the resampled alpha to stay maximal (C10's QuantOK); checked by the oracle"],
+    "Lean 4 theorems over translated alpha arithmetic and the control-flow model + metamorphic correspondence",
+    ["C12 demands a bit-exact copy for same-size calls with every alpha setting; a copy keeps colours under alpha = 0, so C07 is claimed for "
+     "calls that reach a convolution (not the copy fast path, not a same-size super-sampling intermediate)"])
+
+CONFIG['C01'] = _resize_cfg(
+    "(L2) whole resizes: 13 pixel types x 7 filters x {Convolution, Interpolation, SuperSampling m in 1,2,3,8, Nearest} x sizes 1..40 (some "
+    "to 160) incl. 1<->N, crops (integer, fractional, edge-flush, sub-pixel, fit) x back-ends x alpha on/off x contents {random, extremes, "
+    "checkerboards}; the model computes the destination from its own coefficient mirror and must agree byte for byte (f32 on SIMD: a few "
+    "ulps). (L1) the implementation's coefficients (windows, f64 weights bit for bit, precisions, quantised integers) for every (in, out) "
+    "pair up to 12 (thorough 40) x 7 filters and seeded geometries.",
+    "Machine-checked proof (Lean 4) about passInt: the result is the exact fixed-point sum rounded to nearest (within half a unit) and "
+    "clamped; against ideal rational weights the error of a pass is at most 1/2 + n*m/2^(p+1) when each integer coefficient is the ideal "
+    "one rounded; clamping is 1-Lipschitz and a second pass adds sum|w| times the first error; SuperSampling is the convolution of the "
+    "nearest intermediate (control flow). The executable model (bit-exact Float mirror of the kernels and of precompute_coefficients) "
+    "reproduces the implementation on every generated case.",
+    ["accuracy of the f64 evaluation of the kernels and of their normalisation (libm) is not a theorem: the implementation's weights are "
+     "compared bit for bit with the model's mirror, which evaluates the documented formulas",
+     "I32 / F32 accumulation error bounds are not proved in Lean (exact agreement with the model on the portable back-end is checked)"],
+    "Lean 4 theorems over the fixed-point pass arithmetic (integers + rationals) + bit-exact executable mirror with differential correspondence")
